@@ -8,5 +8,5 @@ Next == /\ lo < hi
         /\ LET mid == (lo + hi) \div 2 IN
            \/ (lo' = lo /\ hi' = mid)
            \/ (lo' = mid + 1 /\ hi' = hi)
-Report == lo < hi \/ PrintT("V " \o ToString(lo) \o " " \o Verdict(Items[lo]))
+Report == lo < hi \/ PrintT("V " \o ToString(lo) \o " " \o OVerdict(Items[lo]))
 =============================================================================
